@@ -557,6 +557,16 @@ impl BytecodeBuilder {
     pub fn reserve_registers(&mut self, count: u8) -> Result<Register, JsError> {
         self.registers.reserve_range(count)
     }
+
+    /// Reserve consecutive registers for the `count` parts of a sized construct
+    /// (array elements, template parts, parameters). A count that does not fit
+    /// the 8-bit register space is rejected instead of being truncated.
+    pub fn reserve_window(&mut self, count: usize, what: &str) -> Result<Register, JsError> {
+        let count = u8::try_from(count).map_err(|_| {
+            JsError::syntax_error_simple(format!("Too many {} (max 255)", what))
+        })?;
+        self.registers.reserve_range(count)
+    }
 }
 
 impl Default for BytecodeBuilder {
